@@ -34,8 +34,14 @@ _DOM = {}
 
 def dom(typed):
     if typed not in _DOM:
-        _DOM[typed] = parse_domain(gp.DOMAIN_T if typed else gp.DOMAIN_U)
+        _DOM[typed] = parse_domain({True: gp.DOMAIN_T, False: gp.DOMAIN_U, "flat": gp.DOMAIN_F}[typed])
     return _DOM[typed]
+
+
+FLAT_CASES = [  # (init item, must be accepted) in the FLAT domain: t2 is NOT a subtype of t1 there
+    ("(p o2)", False), ("(= (g o2) 1)", False), ("(q o1 o2)", False), ("(s o2)", True), ("(p o1)", True),
+    ("(m o2)", True), ("(= (k o2) 1)", True), ("(u o1 o1 o3)", True), ("(u o1 o2 o3)", False),
+]
 
 
 def cases(tier):
@@ -139,6 +145,19 @@ def check_case(case):
                 break
     else:
         r.nontrivial = True
+        # the flat-hierarchy twin of the domain, interleaved with the typed one in the same process
+        for init, ok in FLAT_CASES:
+            for first in (True, "flat"):
+                for d in ((True, "flat") if first is True else ("flat", True)):
+                    text = gp.render("o1 - t1 o2 - t2 o3 - t3", [init], [])
+                    P = guard(parse_problem, text, dom(d))
+                    r.count("transitions")
+                    want = ok if d == "flat" else True
+                    if (not isinstance(P, Raised)) != want:
+                        r.fail("flat-twin", f"init {init} in the {'flat' if d == 'flat' else 'nested'} type hierarchy was "
+                               f"{'accepted' if not isinstance(P, Raised) else 'rejected'}, expected "
+                               f"{'accepted' if want else 'rejected'}", want, str(P)[:100], tags=["flat-twin", str(d)])
+                        return r
         for c in case["items"]:
             r.count("states")
             r.count("transitions")
